@@ -283,7 +283,8 @@ func parseWidthModifier(s string) (int, int, error) {
 		if err != nil {
 			return 0, 0, fmt.Errorf("invalid maximum width %q: %s", parts[1], err)
 		}
-		if max < min {
+		// A maximum of "*" means unbounded (parseWidth returns 0 for it).
+		if max < min && parts[1] != "*" {
 			return 0, 0, fmt.Errorf("invalid width modifier %q: maximum width cannot be less than minimum width", s)
 		}
 	default:
